@@ -536,7 +536,9 @@ func Run(c Case, h Hooks) Result {
 					default:
 						pr.OK = true
 					}
-					if pr.OK || pr.Hung != "" || !strings.Contains(pr.Err, "Unavailable") {
+					// unavailable-type errors: gorums' own "stream is down", grpc transport errors, io.EOF
+					// from a send on a stream that is just being torn down
+					if pr.OK || pr.Hung != "" || !(strings.Contains(pr.Err, "Unavailable") || strings.Contains(pr.Err, "EOF") || strings.Contains(pr.Err, "code = Canceled")) {
 						break
 					}
 					time.Sleep(5 * time.Millisecond)
